@@ -100,6 +100,201 @@ BOUNDED = ["loops inside tag methods (timer stacks, accumulators) unrolled twice
 TRUSTED = ["notify_listeners(name) makes every listener record the name (dispatch loop); Engine.notify_tag_updates / collect_tag_updates (queue, de-duplication) are not under contract",
            "calls the executor cannot follow (unit conversion, tracing, formatting) are opaque and assumed not to write the tag's value fields",
            "a value is `changed` when the stored object differs (identity of the boxed value)"]
-CLAUSES = {"between two reports every tag whose value changed appears in the next report": "per-method notification obligation on every value-writing method of every Tag class (mechanism); the queue/report building is NOT covered",
-           "a report never contains a tag twice; a snapshot contains every tag": "NOT covered"}
+CLAUSES = {"between two reports every tag whose value changed appears in the next report": "per-method notification obligation on every value-writing method of every Tag class (mechanism); the step from notification to the queue (listener set, notify_tag_updates) is NOT covered",
+           "a report never contains a tag twice; a snapshot contains every tag": "collect_tag_updates (both variants) + Engine.notify_all_tags, proved without bound (queue as ghost list)"}
 EXPLANATION = "Mechanism-level partial claim: a generated notification obligation per value-writing tag method."
+
+
+# =====================================================================================================================================
+# Report building: EngineMessageBuilder.collect_tag_updates (the queue is modelled as a list object hung on the Queue: get_nowait pops
+# the head or raises Empty, put appends)
+# =====================================================================================================================================
+from pyvc import heapops as _H                     # noqa: E402
+from pyvc.smt import NONE as _NONE, mk_ref as _mk_ref   # noqa: E402
+B = "openpectus.engine.engine_message_builder:EngineMessageBuilder."
+Q = "self.engine.ghost_pending"
+
+
+def _pending(ctx):
+    return ctx.spec(Q)
+
+
+def q_get_nowait(ctx, args, kwargs):
+    """Queue.get_nowait(): removes and returns the oldest pending item, raises queue.Empty when none is pending"""
+    lst = _pending(ctx)
+    st = ctx.st
+    n = _H.list_len(st, RID(lst.term))
+    if ctx.decide(n <= 0, "queue empty"):
+        ctx.raise_("Empty", "queue empty")
+    return ctx.ex.call_method_builtin(lst, "pop", [ctx.int(0)], {}, ctx.fr, ctx.node)
+
+
+q_get_nowait.modifies = ["$items", "$len"]
+
+
+def q_noop(ctx, args, kwargs):
+    """Queue.task_done(): bookkeeping only"""
+    return ctx.none()
+
+
+q_noop.modifies = []
+
+
+def as_readonly(ctx, args, kwargs):
+    """Tag.as_readonly(): an immutable copy carrying the tag's name and the value currently reported (simulated value while simulated)"""
+    t = ctx.ex.ev(ctx.node.func.value, ctx.fr)
+    st = ctx.st
+    obs = _obs(st, st.heap, t)
+    return ctx.new_object("TagValue", name=ctx.read(t, "name", "str"), value=SV(obs, None))
+
+
+as_readonly.modifies = []
+
+
+def to_model(ctx, args, kwargs):
+    """to_model_tag(v): protocol TagValue with the same name and value (Decimal values become floats: not modelled, values are opaque)"""
+    v = args[0]
+    return ctx.new_object("TagValue", name=ctx.read(v, "name", "str"), value=ctx.read(v, "value", None))
+
+
+to_model.modifies = []
+
+
+def notify_all(ctx, args, kwargs):
+    """Engine.notify_all_tags() under its contract below: every tag of the engine (ghost list `ghost_all_tags`) is pending afterwards"""
+    fi = ctx.ex.repo.func("openpectus.engine.engine:Engine.notify_all_tags")
+    eng = ctx.spec("self.engine")
+    return ctx.ex.call_function(fi, [], {}, ctx.fr, eng, ctx.node)
+
+
+notify_all.modifies = ["$items", "$len", "tick_time"]
+CT = {"self": "EngineMessageBuilder", "EngineMessageBuilder.engine": "Engine", "Engine.ghost_pending": "list[Tag]",
+      "tags": "dict[str, TagValue]", "Tag.name": "str", "TagValue.name": "str", "snapshot": "bool", "Tag.simulated": "bool",
+      "Engine.ghost_all_tags": "list[Tag]"}
+OLDQ = f"old({Q})"
+KEYED = "all(tags[k].name == k for k in tags)"
+collect = Contract(
+    target=B + "collect_tag_updates", types=CT, raises={},
+    calls={"self.engine.tag_updates.get_nowait": q_get_nowait, "self.engine.tag_updates.task_done": q_noop, "tag_org.as_readonly": as_readonly,
+           "to_model_tag": to_model, "self.engine.notify_all_tags": notify_all},
+    requires=["not snapshot", f"{Q} is not None",
+              # tag names identify tags (TagCollection keys; system and uod tag names are disjoint): pending entries with one name are one tag
+              f"all(implies({Q}[i].name == {Q}[j].name, {Q}[i] is {Q}[j]) for i in range(len({Q})) for j in range(len({Q})))"],
+    ensures=[("lemma:the-report-lists-the-dictionary-values-in-order", "len(result) == len(tags) and all(result[i] is tags[key_at(tags, i)] for i in range(len(result)))"),
+             ("lemma:report-names-are-the-dictionary-keys", "all(result[i].name == key_at(tags, i) for i in range(len(result)))"),
+             ("lemma:the-ith-key-sits-at-position-i", "all(pos_of(tags, key_at(tags, i)) == i for i in range(len(tags)))"),
+             ("lemma:listed-keys-are-members", "all(has_key(tags, key_at(tags, i)) for i in range(len(tags)))"),
+             ("lemma:members-are-strings", "all(is_instance(k, 'str') for k in tags)"),
+             ("lemma:dictionary-keys-are-strings", "all(is_instance(key_at(tags, i), 'str') for i in range(len(tags)))"),
+             ("lemma:dictionary-keys-are-pairwise-distinct-objects", "all(implies(i < j, key_at(tags, i) is not key_at(tags, j)) for i in range(len(tags)) for j in range(len(tags)))"),
+             ("lemma:dictionary-keys-are-pairwise-distinct", "all(implies(i < j, key_at(tags, i) != key_at(tags, j)) for i in range(len(tags)) for j in range(len(tags)))"),
+             ("a-report-never-contains-a-tag-twice", "all(implies(i < j, result[i].name != result[j].name) for i in range(len(result)) for j in range(len(result)))"),
+             ("every-queued-tag-appears-in-the-report", f"all(any(r.name == at_entry_q(j).name for r in result) for j in range(at_entry_qlen()))"),
+             ("every-queued-tag-is-reported-with-the-value-it-has-now",
+              "all(any(r.name == at_entry_q(j).name and r.value is OBS(at_entry_q(j)) for r in result) for j in range(at_entry_qlen()))"),
+             ("the-queue-is-drained", f"len({Q}) == 0")],
+    loops={"while True": LoopSpec(
+        invariant=["wf(tags)", "all(is_instance(k, 'str') for k in tags)", KEYED, "all(allocated(tags[k]) for k in tags)", f"len({Q}) + idx == at_entry_qlen()",
+                   f"all({Q}[j] is at_entry_q(j + idx) for j in range(len({Q})))",
+                   "all(has_key(tags, at_entry_q(j).name) for j in range(idx))",
+                   "all(tags[at_entry_q(j).name].value is OBS(at_entry_q(j)) for j in range(idx))",
+                   "all(implies(at_entry_q(i).name == at_entry_q(j).name, at_entry_q(i) is at_entry_q(j)) for i in range(at_entry_qlen()) for j in range(at_entry_qlen()))"],
+        frame={"$dhas": ["tags"], "$dval": ["tags"], "$dcnt": ["tags"], "$dord": ["tags"], "$dpos": ["tags"], "$items": [Q], "$len": [Q]})})
+
+
+def at_entry_q(ctx, j):
+    from pyvc.smt import IV, field_sort
+    lst = ctx.spec(Q)
+    le = getattr(ctx.ex.top_frame, "loop_entry", None)
+    h0 = le[0] if le else ctx.ex.top_frame.entry_heap      # the queue as it was when the draining loop was entered
+    items0 = h0.get("$items", z3.Const("H0!$items", field_sort("$items")))
+    return SV(z3.Select(z3.Select(items0, RID(lst.term)), IV(j.term)), Ty("Tag"))
+
+
+def at_entry_qlen(ctx):
+    from pyvc.smt import field_sort, mk_int
+    lst = ctx.spec(Q)
+    le = getattr(ctx.ex.top_frame, "loop_entry", None)
+    h0 = le[0] if le else ctx.ex.top_frame.entry_heap
+    len0 = h0.get("$len", z3.Const("H0!$len", field_sort("$len")))
+    return SV(mk_int(z3.Select(len0, RID(lst.term))), Ty("int"))
+
+
+def allocated(ctx, x):
+    """x is a reference to an object that exists now (allocated before the current allocation point)"""
+    st = ctx.st
+    return SV(mk_bool(z3.And(Val.is_VRef(x.term), RID(x.term) >= 0, RID(x.term) < st.alloc)), Ty("bool"))
+
+
+def wf(ctx, d):
+    """representation invariant of the dict encoding (keys <-> positions bijection, count): must be carried through a loop havoc"""
+    return SV(mk_bool(_H.dict_wf(ctx.st, RID(d.term))), Ty("bool"))
+
+
+def pos_of(ctx, d, k):
+    from pyvc.smt import mk_int
+    return SV(mk_int(z3.Select(ctx.st.read("$dpos", RID(d.term)), k.term)), Ty("int"))
+
+
+def OBS(ctx, t):
+    """the value a tag reports now: its simulated value while simulated, else its value"""
+    return SV(_obs(ctx.st, ctx.st.heap, t), None)
+
+
+SPEC_FUNCS = {"OBS": OBS, "pos_of": pos_of, "at_entry_q": at_entry_q, "at_entry_qlen": at_entry_qlen, "allocated": allocated, "wf": wf}
+# ---- snapshot: Engine.notify_all_tags puts every tag of the engine into the queue ---------------------------------------------------
+ALL = "self.ghost_all_tags"
+PEND = "self.ghost_pending"
+
+
+def all_tags(ctx, args, kwargs):
+    """Engine._iter_all_tags(): the system tags followed by the uod tags (itertools.chain over the two collections), as one ghost list"""
+    return ctx.spec(ALL)
+
+
+def q_put(ctx, args, kwargs):
+    """Queue.put(x): x becomes the newest pending item"""
+    lst = ctx.spec(PEND)
+    return ctx.ex.call_method_builtin(lst, "append", [args[0]], {}, ctx.fr, ctx.node)
+
+
+all_tags.modifies = []
+q_put.modifies = ["$items", "$len"]
+ET = {"self": "Engine", "Engine.ghost_all_tags": "list[Tag]", "Engine.ghost_pending": "list[Tag]", "Tag.tick_time": "float | None", "Engine._tick_time": "float"}
+APPENDED = (f"len({PEND}) == old(len({PEND})) + len({ALL}) and all({PEND}[i] is old({PEND}[i]) for i in range(old(len({PEND})))) and "
+            f"all({PEND}[i] is {ALL}[i - old(len({PEND}))] for i in range(old(len({PEND})), len({PEND})))")
+notify_all_c = Contract(
+    target="openpectus.engine.engine:Engine.notify_all_tags", types=ET, raises={}, calls={"self._iter_all_tags": all_tags, "self.tag_updates.put": q_put},
+    requires=[f"{PEND} is not None and {ALL} is not None and {PEND} is not {ALL}"],
+    ensures=[("every-tag-of-the-engine-is-appended-to-the-pending-queue-in-order", APPENDED)],
+    modifies={"$items": [PEND], "$len": [PEND], "tick_time": ["*"]},
+    loops={"for tag in self._iter_all_tags()": LoopSpec(
+        invariant=[f"len({PEND}) == old(len({PEND})) + idx", f"all({PEND}[i] is old({PEND}[i]) for i in range(old(len({PEND}))))",
+                   f"all({PEND}[i] is {ALL}[i - old(len({PEND}))] for i in range(old(len({PEND})), len({PEND})))"],
+        frame={"$items": [PEND], "$len": [PEND], "tick_time": ["*"]})})
+
+EA = "self.engine.ghost_all_tags"
+UNIQ = lambda xs, ys: f"all(implies({xs}[i].name == {ys}[j].name, {xs}[i] is {ys}[j]) for i in range(len({xs})) for j in range(len({ys})))"
+collect_snapshot = Contract(
+    target=B + "collect_tag_updates", variant="snapshot", types=CT, raises={}, calls=collect.calls,
+    requires=["snapshot", f"{Q} is not None and {EA} is not None and {Q} is not {EA}", UNIQ(Q, Q), UNIQ(Q, EA), UNIQ(EA, EA)],
+    ensures=[e for e in collect.ensures if not e[0].startswith("every-queued")] +
+            [("lemma:the-engine-tags-sat-behind-the-earlier-pending-entries",
+              f"at_entry_qlen() == old(len({Q})) + len({EA}) and all(at_entry_q(old(len({Q})) + j) is {EA}[j] for j in range(len({EA})))"),
+             ("lemma:every-tag-of-the-engine-was-pending-when-the-draining-loop-started",
+              f"all(any(at_entry_q(i) is {EA}[j] for i in range(at_entry_qlen())) for j in range(len({EA})))"),
+             ("every-queued-tag-appears-in-the-report", "all(any(r.name == at_entry_q(j).name for r in result) for j in range(at_entry_qlen()))"),
+             ("a-snapshot-report-contains-every-tag", f"all(any(r.name == {EA}[j].name for r in result) for j in range(len({EA})))"),
+             ("every-tag-is-reported-with-the-value-it-has-now", f"all(any(r.name == {EA}[j].name and r.value is OBS({EA}[j]) for r in result) for j in range(len({EA})))")],
+    loops={"while True": LoopSpec(
+        invariant=[f"at_entry_qlen() == old(len({Q})) + len({EA})",
+                   f"all(at_entry_q(i) is old({Q}[i]) for i in range(old(len({Q}))))",
+                   f"all(at_entry_q(i) is {EA}[i - old(len({Q}))] for i in range(old(len({Q})), at_entry_qlen()))",
+                   f"all(implies(at_entry_q(i).name == at_entry_q(j).name, at_entry_q(i) is at_entry_q(j)) for i in range(old(len({Q}))) for j in range(old(len({Q}))))",
+                   f"all(implies(at_entry_q(i).name == at_entry_q(j).name, at_entry_q(i) is at_entry_q(j)) for i in range(old(len({Q}))) for j in range(old(len({Q})), at_entry_qlen()))",
+                   f"all(implies(at_entry_q(i).name == at_entry_q(j).name, at_entry_q(i) is at_entry_q(j)) for i in range(old(len({Q})), at_entry_qlen()) for j in range(old(len({Q})), at_entry_qlen()))"]
+        + collect.loops["while True"].invariant,
+        frame=collect.loops["while True"].frame)})
+
+CONTRACTS = CONTRACTS + [collect, notify_all_c, collect_snapshot]
+TARGETS = [c.key for c in CONTRACTS]
